@@ -175,6 +175,9 @@ class CommandResponse(Response):
                 merge_key = resp.merge_key
             except TypeError:
                 self._untagged.append(resp)
+                if resp.renumbers:
+                    # responses after this one use new sequence numbers
+                    self._mergeable.clear()
             else:
                 key = (type(resp), merge_key)
                 try:
@@ -248,6 +251,15 @@ class UntaggedResponse(Response):
     @asynccontextmanager
     async def _noop_cm(cls) -> AsyncIterator[None]:
         yield
+
+    @property
+    def renumbers(self) -> bool:
+        """True if message sequence numbers change once the client has
+        processed this response, e.g. ``EXPUNGE``. Responses on either side
+        of it must not be merged.
+
+        """
+        return False
 
     @property
     def merge_key(self) -> Hashable:
